@@ -15,7 +15,7 @@ import ast
 from ..cfg import CFG
 from ..match import bind_args, calls, expected_term, returns, term_of
 from ..model import own_nodes, parents
-from ..terms import show
+from ..terms import Canon, Scope, show
 from .common import CR
 
 EXPLANATION = ('Ownership / append-only rule (R11) on the five feature constructors and the helpers they hand the frame to; chain of custody of the frame through compute_batch_ranking; '
@@ -374,64 +374,125 @@ def multiex_rule(repo, chk):
         chk.expect(ok_rm, 'C11.3c', 'R13', fn.site(rm[0]) if rm else fn.site(), ast.unparse(rm[0]) if rm else 'unique_values.remove(missing_symbol)', 'missing-value symbols do not become indicator columns', 'missing-value symbols must be removed from the token universe', soft=True)
 
 
+def _fuse_comprehensions(t):
+    """[f(x) for x in [g(y) for y in S]]  ->  [f(g(y)) for y in S]   (single generators, no filter on the inner one); sub-terms first"""
+    if not isinstance(t, tuple):
+        return t
+    t = tuple(_fuse_comprehensions(x) for x in t)
+    if t and t[0] in ('listcomp', 'genexp') and len(t) == 3 and len(t[2]) == 1:
+        it, ifs = t[2][0]
+        if isinstance(it, tuple) and it and it[0] in ('listcomp', 'genexp') and len(it[2]) == 1 and not it[2][0][1]:
+            cv = ('cvar', 0, 0)
+            inner_elt = it[1]
+
+            def rep(x):
+                if x == cv:
+                    return inner_elt
+                if isinstance(x, tuple):
+                    y = tuple(rep(z) for z in x)
+                    if len(y) == 3 and y[0] == 'sub' and isinstance(y[1], tuple) and y[1] and y[1][0] in ('tuple', 'list') and y[2][0] == 'num' and isinstance(y[2][1], int) and 0 <= y[2][1] < len(y[1]) - 1:
+                        return y[1][1 + y[2][1]]
+                    return y
+                return x
+            return (t[0], rep(t[1]), ((it[2][0][0], tuple(rep(c) for c in ifs)),))
+    return t
+
+
 def subfeature_rules(repo, chk):
+    """compute_subfeatures decided on a model: one seed pair is evaluated for each operator (the operator tests decided, inner list-building loops
+    summarised); what is stored into the table of new columns is one `for every value (pair): table[name] = column` per operator, and name and
+    column must be the stated ones:
+      a->b    for v in values(b):               'SUBFEATURE-' a '&' v      = ['AND'.join((x, y)) if y == v else '' for x, y in rows(a, b)]
+      a<->b   for (u, v) in values(a) x values(b): 'SUBFEATURE|a|b-' u '&' v = ['1' if x == u and y == v else '0' for x, y in rows(a, b)]"""
+    from ..match import run_paths, within_vocabulary
+    from .common import loop_terms
     fn = repo.func(CR, 'compute_subfeatures')
     m = fn.module
-    # pairs (a, b) row by row
-    tmpl = [n for n in own_nodes(fn.node) if isinstance(n, ast.Assign) and isinstance(n.value, ast.ListComp) and 'zip' in ast.unparse(n.value)]
-    ok_t = False
-    if len(tmpl) == 1 and isinstance(tmpl[0].value, ast.ListComp):
-        lc0 = tmpl[0].value
-        g0 = lc0.generators[0]
-        za = g0.iter.args if isinstance(g0.iter, ast.Call) and isinstance(g0.iter.func, ast.Name) and g0.iter.func.id == 'zip' else []
-        if len(za) == 2 and isinstance(g0.target, ast.Tuple) and len(g0.target.elts) == 2 and isinstance(lc0.elt, ast.Tuple) and [ast.unparse(e) for e in lc0.elt.elts] == [ast.unparse(e) for e in g0.target.elts] and not g0.ifs:
-            srcs = [term_of(fn, a, inline=True) for a in za]
-            ok_t = all("tolist" in show(t) for t in srcs) and srcs[0] != srcs[1]
-    chk.expect(ok_t, 'C11.4a', 'R15', fn.site(tmpl[0]) if tmpl else fn.site(), ast.unparse(tmpl[0])[:120] if tmpl else '', 'one (first, second) pair per row, in row order', 'the row template must pair the two source columns row by row', soft=True)
-    T = tmpl[0].targets[0].id if tmpl else 'out_template_feature'
-    # one-sided
-    one = [n for n in own_nodes(fn.node) if isinstance(n, ast.Assign) and isinstance(n.value, ast.ListComp) and isinstance(n.value.elt, ast.IfExp)]
-    ok_one = False
-    if len(one) == 1:
-        lc = one[0].value
-        x = lc.generators[0].target.id if isinstance(lc.generators[0].target, ast.Name) else None
-        test = lc.elt.test
-        valvar = test.comparators[0].id if isinstance(test, ast.Compare) and isinstance(test.comparators[0], ast.Name) else None
-        ok_one = x is not None and valvar is not None and ast.unparse(lc.generators[0].iter) == T and ast.unparse(lc.elt.body).replace('\n', '').replace(' ', '') == f"'AND'.join({x})" and ast.unparse(test) == f'{x}[1] == {valvar}' \
-            and isinstance(lc.elt.orelse, ast.Constant) and lc.elt.orelse.value == ''
-    chk.expect(ok_one, 'C11.4b', 'R15', fn.site(one[0]) if one else fn.site(), ast.unparse(one[0]).replace('\n', ' ')[:160] if one else '', "one-sided: joined source value iff the selector column has the value, '' otherwise",
-               "the one-sided sub-feature must be 'AND'.join(pair) exactly on rows where pair[1] == value and '' elsewhere", soft=True)
-    # two-sided
-    two = [n for n in own_nodes(fn.node) if isinstance(n, ast.If) and isinstance(n.test, ast.BoolOp) and any(isinstance(c, ast.Call) and isinstance(c.func, ast.Attribute) and c.func.attr == 'append' for s in n.body for c in ast.walk(s))]
-    ok_two = False
-    if len(two) == 1:
-        t = term_of(fn, two[0].test, inline=False)
-        par0 = parents(fn.node)
-        lp0 = par0.get(two[0])
-        vt = lp0.target.id if isinstance(lp0, ast.For) and isinstance(lp0.target, ast.Name) else 'value_tuple'
-        lp1 = par0.get(lp0) if lp0 is not None else None
-        mk = lp1.target.id if isinstance(lp1, ast.For) and isinstance(lp1.target, ast.Name) else 'mask_type'
-        want = expected_term(m, f'{vt}[0] == {mk}[0] and {vt}[1] == {mk}[1]')
-        a1 = [ast.unparse(c.args[0]) for s in two[0].body for c in ast.walk(s) if isinstance(c, ast.Call) and isinstance(c.func, ast.Attribute) and c.func.attr == 'append']
-        a0 = [ast.unparse(c.args[0]) for s in two[0].orelse for c in ast.walk(s) if isinstance(c, ast.Call) and isinstance(c.func, ast.Attribute) and c.func.attr == 'append']
-        par = parents(fn.node)
-        lp = par.get(two[0])
-        ok_two = t == want and a1 in (['str(1)'], ["'1'"]) and a0 in (['str(0)'], ["'0'"]) and isinstance(lp, ast.For) and ast.unparse(lp.iter) == T
-    chk.expect(ok_two, 'C11.4c', 'R15', fn.site(two[0]) if two else fn.site(), ast.unparse(two[0].test).replace('\n', ' ') if two else '', "two-sided: '1' iff both components equal the mask pair, else '0'",
-               "the two-sided sub-feature must be the indicator of (first == mask[0] and second == mask[1])", soft=True)
-    # masks: all value pairs
-    masks = [n for n in own_nodes(fn.node) if isinstance(n, ast.Call) and isinstance(n.func, ast.Attribute) and n.func.attr == 'append' and isinstance(n.args[0], ast.Tuple) and len(n.args[0].elts) == 2 and 'unique' in ast.unparse(n.args[0])]
-    ok_masks = False
-    if len(masks) == 1:
-        parm = parents(fn.node)
-        l_in = parm.get(parm.get(masks[0]))
-        l_out = parm.get(l_in) if l_in is not None else None
-        if isinstance(l_in, ast.For) and isinstance(l_out, ast.For) and isinstance(l_in.target, ast.Name) and isinstance(l_out.target, ast.Name):
-            e0, e1 = [ast.unparse(e) for e in masks[0].args[0].elts]
-            first_src = term_of(fn, l_in.iter, inline=True)
-            second_src = term_of(fn, l_out.iter, inline=True)
-            ok_masks = e0 == l_in.target.id and e1 == l_out.target.id and 'unique' in show(first_src) and 'unique' in show(second_src) and first_src != second_src
-    chk.expect(ok_masks, 'C11.4d', 'R15', fn.site(masks[0]) if masks else fn.site(), ast.unparse(masks[0]) if masks else '', 'one indicator per (first value, second value) pair', 'mask pairs must be (value of the first feature, value of the second feature)', soft=True)
+    frame = fn.params[0]
+    loops = [n for n in fn.node.body if isinstance(n, ast.For)]
+    if len(loops) != 1 or not isinstance(loops[0].target, ast.Name):
+        chk.unsure('C11.4', 'R15', fn.site(), 'for seed_pair in <mapping>.split(";")', 'the loop over the sub-feature seeds was not found')
+        return
+    lp = loops[0]
+    seed = lp.target.id
+    it = term_of(fn, lp.iter, inline=True)
+    chk.expect_term(it, [expected_term(m, f"{fn.params[2]}.subfeature_mapping.split(';')")], 'C11.4s', 'R13', fn.site(lp), ast.unparse(lp.iter)[:80], "one construction per ';'-separated seed of the mapping", f"the seeds must be args.subfeature_mapping.split(';'); found {show(it)[:100]}")
+    for op, two_sided in (('->', False), ('<->', True)):
+        sval = f'FA{op}FB'
+        oid = 'C11.4c' if two_sided else 'C11.4b'
+        paths = run_paths(fn, lambda e: isinstance(e, ast.Name) and e.id == seed, sval, max_forks=2, body=lp.body, eval_closures=True)
+        good = [(a_, r) for a_, r in (paths or []) if r.unknown is None and r.raised is None]
+        if not paths or len(good) != 1 or len(paths) != 1:
+            node = next((r.unknown for _, r in (paths or []) if r.unknown is not None), None)
+            if paths and all(r.raised is not None for _, r in paths):
+                chk.bad(oid, 'R7', fn.site(lp), f'seed {sval!r}', f'a seed with the operator {op} raises: the operator is no longer served')
+            else:
+                chk.unsure(oid, 'R15', fn.site(node) if node is not None else fn.site(lp), f'seed {sval!r}', 'the construction for this operator could not be evaluated as one path')
+            continue
+        res = good[0][1]
+        B = {seed: ('role', 'seed')}
+        ER = lambda src: expected_term(m, src, {'seed': ('role', 'seed'), 'F': ('name', frame)})
+        FIRST, SECOND = f"seed.split({op!r})[0]", f"seed.split({op!r})[1]"
+        stores = [u for u in res.updates if (u['kind'] == 'foreach' and u.get('op') == 'store') or u['kind'] in ('store1', 'storeall')]
+        if len(stores) != 1 or stores[0]['kind'] != 'foreach':
+            other_loops = [e for e in res.effects if isinstance(e, (ast.For, ast.While))]
+            if other_loops or stores:
+                nd = other_loops[0] if other_loops else stores[0]['node']
+                chk.unsure(oid, 'R15', fn.site(nd), ast.unparse(nd).replace('\n', ' ')[:100], 'the loop that builds the new columns for this operator is outside the vocabulary of effect loops')
+            else:
+                chk.bad(oid, 'R15', fn.site(lp), f'seed {sval!r}', 'no column is constructed for a seed with this operator')
+            continue
+        u = stores[0]
+        site = fn.site(u['node'])
+        chain, key, val, guard, _a, tgt = loop_terms(fn, u, roles=B)
+        val = _fuse_comprehensions(val)
+        def col(which, sfx):
+            return [ER(f'F[[{FIRST}, {SECOND}]][{which}]{sfx}'), ER(f'F[{which}]{sfx}'), ER(f'F[[{FIRST}, {SECOND}]].copy()[{which}]{sfx}')]
+        uniq = {w: col(w, '.unique()') + col(w, '.drop_duplicates()') for w in (FIRST, SECOND)}
+        rows_forms = []
+        for sfx in ('.tolist()', '.values', '', '.to_list()', '.values.tolist()'):
+            for a_t in col(FIRST, sfx):
+                for b_t in col(SECOND, sfx):
+                    rows_forms.append(('call', ('name', 'zip'), (a_t, b_t), ()))
+        X, Y = ('sub', ('cvar', 0, 0), ('num', 0)), ('sub', ('cvar', 0, 0), ('num', 1))
+        if guard is not None:
+            chk.unsure(oid, 'R15', site, show(guard)[:100], 'the columns are constructed under a condition on the values')
+            continue
+        if not two_sided:
+            V = ('lvar', 0, 0)
+            ok_dom = len(chain) == 1 and chain[0] in uniq[SECOND]
+            want_key = [expected_term(m, f"'SUBFEATURE-' + {FIRST} + '&' + V", {'seed': ('role', 'seed'), 'V': V})]
+            mk = lambda rows, joined: ('listcomp', ('ifexp', ('cmp', '==', V, Y) if repr(V) < repr(Y) else ('cmp', '==', Y, V), joined, ('str', '')), ((rows, ()),))
+            cn = Canon(m, Scope(None), inline=False, bound={'V': V, 'X': X, 'Y': Y})
+            cmp_t = cn.t(ast.parse('Y == V', mode='eval').body)
+            joined = [cn.t(ast.parse(src, mode='eval').body) for src in ("'AND'.join((X, Y))", "'AND'.join([X, Y])", "X + 'AND' + Y")]
+            joined.append(('call', ('attr', ('str', 'AND'), 'join'), (('cvar', 0, 0),), ()))      # the (first, second) pair of the row itself
+            want_val = [('listcomp', ('ifexp', cmp_t, j, ('str', '')), ((r, ()),)) for r in rows_forms for j in joined]
+            title = "one-sided: for every value v of the selector column, SUBFEATURE-<first>&<v> = joined source value where the selector is v, '' elsewhere"
+        else:
+            # the two loop levels in either order
+            lv = {0: ('lvar', 0, 0), 1: ('lvar', 1, 0)}
+            ok_dom = len(chain) == 2 and ((chain[0] in uniq[SECOND] and chain[1] in uniq[FIRST]) or (chain[0] in uniq[FIRST] and chain[1] in uniq[SECOND]))
+            if ok_dom:
+                S, Tv = (lv[1], lv[0]) if chain[0] in uniq[SECOND] else (lv[0], lv[1])
+            else:
+                S, Tv = lv[1], lv[0]
+            want_key = [expected_term(m, "f'SUBFEATURE|{" + FIRST + "}|{" + SECOND + "}-' + S + '&' + T", {'seed': ('role', 'seed'), 'S': S, 'T': Tv}),
+                        expected_term(m, "f'SUBFEATURE|{" + FIRST + "}|{" + SECOND + "}-{S}&{T}'", {'seed': ('role', 'seed'), 'S': S, 'T': Tv})]
+            cn = Canon(m, Scope(None), inline=False, bound={'S': S, 'T': Tv, 'X': X, 'Y': Y})
+            cond = cn.t(ast.parse('X == S and Y == T', mode='eval').body)
+            ones = [(cn.t(ast.parse(a_, mode='eval').body), cn.t(ast.parse(b_, mode='eval').body)) for a_, b_ in (('str(1)', 'str(0)'), ("'1'", "'0'"))]
+            want_val = [('listcomp', ('ifexp', cond, o1, o0), ((r, ()),)) for r in rows_forms for o1, o0 in ones]
+            title = "two-sided: for every pair (u, v) of values, SUBFEATURE|<first>|<second>-<u>&<v> = '1' where both columns hold the pair, '0' elsewhere"
+        if not ok_dom:
+            chk.expect_term(chain[0] if chain else ('none',), uniq[SECOND], oid, 'R13', site, ' x '.join(show(c)[:60] for c in chain), '', 'the new columns must range over the distinct values of the selector column (of both columns for <->)')
+            continue
+        if key in want_key and val in want_val:
+            chk.ok(oid, 'R15', site, f'{show(key)[:80]} = {show(val)[:80]}', title)
+        elif key not in want_key:
+            chk.expect_term(key, want_key, oid, 'R5', site, show(key)[:140], '', f'the name of a sub-feature column must be {show(want_key[0])[:100]}; found {show(key)[:120]}')
+        else:
+            chk.expect_term(val, want_val[:6], oid, 'R15', site, show(val)[:200], '', f'the sub-feature column must be {show(want_val[0])[:200]}; found {show(val)[:260]}')
 
 
 def target_control(repo, chk):
